@@ -239,3 +239,252 @@ Proof.
     + intros k'. rewrite map_app, in_app_iff. cbn. intuition.
     + intros ND. rewrite map_app. cbn. apply NoDup_app_single; [exact ND|]. apply alookup_none_notin. exact E.
 Qed.
+
+(* ---------------------------------------------------------------- pseudonyms 1..999 are pairwise distinct *)
+(* decoding of "Xddd" back to the number ddd *)
+Definition unpseudo (p : N) : N :=
+  let d := p mod 16777216 in (d / 65536 - 48) * 100 + ((d / 256) mod 256 - 48) * 10 + (d mod 256 - 48).
+
+Definition LetterOK (letter : N) : Prop := forall n, n < 1000 -> unpseudo (pseudo letter n) = n.
+
+Definition letter_okb (letter : N) : bool :=
+  forallb (fun i => unpseudo (pseudo letter (N.of_nat i)) =? N.of_nat i) (seq 0 1000).
+
+Lemma letter_okb_sound letter : letter_okb letter = true -> LetterOK letter.
+Proof.
+  unfold letter_okb. rewrite forallb_forall. intros H n Hn.
+  specialize (H (N.to_nat n)). rewrite N2Nat.id in H. apply N.eqb_eq. apply H.
+  apply in_seq. lia.
+Qed.
+
+(* exhaustive over the finite domain 0..999 (not a sample) *)
+Lemma letter_E_ok : LetterOK letter_E. Proof. apply letter_okb_sound. vm_compute. reflexivity. Qed.
+Lemma letter_A_ok : LetterOK letter_A. Proof. apply letter_okb_sound. vm_compute. reflexivity. Qed.
+Lemma letter_C_ok : LetterOK letter_C. Proof. apply letter_okb_sound. vm_compute. reflexivity. Qed.
+
+Lemma pseudo_inj letter n1 n2 : LetterOK letter -> n1 < 1000 -> n2 < 1000 -> pseudo letter n1 = pseudo letter n2 -> n1 = n2.
+Proof. intros L H1 H2 E. rewrite <- (L n1 H1), <- (L n2 H2), E. reflexivity. Qed.
+
+Lemma WFT_injective letter t : LetterOK letter -> WFT letter t -> blen t <= capacity -> tbl_injective t.
+Proof.
+  intros L W Hc k1 k2 p H1 H2.
+  destruct (alookup_nth _ _ _ H1) as [i1 Hi1]. destruct (alookup_nth _ _ _ H2) as [i2 Hi2].
+  pose proof (W _ _ _ Hi1) as P1. pose proof (W _ _ _ Hi2) as P2.
+  assert (L1 : (i1 < length t)%nat) by (apply nth_error_Some; rewrite Hi1; discriminate).
+  assert (L2 : (i2 < length t)%nat) by (apply nth_error_Some; rewrite Hi2; discriminate).
+  unfold blen, capacity in Hc.
+  assert (E : N.of_nat i1 + 1 = N.of_nat i2 + 1) by (apply (pseudo_inj letter); [exact L|lia|lia|congruence]).
+  assert (i1 = i2) by lia. subst i2. rewrite Hi1 in Hi2. inversion Hi2. reflexivity.
+Qed.
+
+(* the capacity is tight: entry 1000 repeats the pseudonym of entry 100 *)
+Lemma pseudo_wraps : pseudo letter_E 1000 = pseudo letter_E 100 /\ pseudo letter_A 1000 = pseudo letter_A 100 /\ pseudo letter_C 1000 = pseudo letter_C 100.
+Proof. vm_compute. repeat split. Qed.
+
+(* ================================================================ 4. the state: invariant and monotonicity *)
+Definition WFS (st : anon_st) : Prop :=
+  WFT letter_E (a_ecus st) /\
+  Forall (fun kt => WFT letter_A (snd kt)) (a_apids st) /\
+  Forall (fun kt => WFT letter_C (snd kt)) (a_ctids st).
+
+Lemma WFS_init : WFS anon_init.
+Proof. split; [apply WFT_nil|split; constructor]. Qed.
+
+Lemma apid_tbl_WFT st E : WFS st -> WFT letter_A (apid_tbl st E).
+Proof.
+  intros (_ & H & _). unfold apid_tbl. destruct (lookup_by N.eqb E (a_apids st)) as [t|] eqn:El; [|apply WFT_nil].
+  exact (lookup_by_Forall N.eqb (WFT letter_A) E t _ H El).
+Qed.
+
+Lemma ctid_tbl_WFT st E A : WFS st -> WFT letter_C (ctid_tbl st E A).
+Proof.
+  intros (_ & _ & H). unfold ctid_tbl. destruct (lookup_by pair_eqb (E, A) (a_ctids st)) as [t|] eqn:El; [|apply WFT_nil].
+  exact (lookup_by_Forall pair_eqb (WFT letter_C) (E, A) t _ H El).
+Qed.
+
+(* the tables only grow: what was assigned stays assigned *)
+Definition st_le (st st' : anon_st) : Prop :=
+  (forall e p, ecu_of st e = Some p -> ecu_of st' e = Some p) /\
+  (forall E A p, apid_of st E A = Some p -> apid_of st' E A = Some p) /\
+  (forall E A C p, ctid_of st E A C = Some p -> ctid_of st' E A C = Some p).
+
+Lemma st_le_refl st : st_le st st. Proof. repeat split; auto. Qed.
+Lemma st_le_trans a b c : st_le a b -> st_le b c -> st_le a c.
+Proof. intros (A1 & A2 & A3) (B1 & B2 & B3). repeat split; auto. Qed.
+
+Lemma ecu_anon_spec st e st1 e' :
+  ecu_anon st e = (st1, e') ->
+  ecu_of st1 e = Some e' /\ st_le st st1 /\ (WFS st -> WFS st1) /\
+  a_apids st1 = a_apids st /\ a_ctids st1 = a_ctids st /\
+  (forall k, In k (map fst (a_ecus st1)) <-> In k (map fst (a_ecus st)) \/ k = e) /\
+  (NoDup (map fst (a_ecus st)) -> NoDup (map fst (a_ecus st1))).
+Proof.
+  unfold ecu_anon. destruct (tbl_get letter_E e (a_ecus st)) as [t' p] eqn:Et. intros H; inversion H; subst; clear H.
+  destruct (tbl_get_spec _ _ _ _ _ Et) as (H1 & [x Hx] & H3 & H4 & H5).
+  split; [exact H1|]. split; [|split; [|cbn; auto]].
+  - repeat split; auto. unfold ecu_of. cbn. intros k p Hk. rewrite Hx. apply alookup_app_some. exact Hk.
+  - intros (W1 & W2 & W3). split; [cbn; auto|split; assumption].
+Qed.
+
+Lemma apid_tbl_set st E t E2 cts ecs :
+  apid_tbl {| a_ecus := ecs; a_apids := set_by N.eqb E t (a_apids st); a_ctids := cts |} E2 =
+  if N.eqb E2 E then t else apid_tbl st E2.
+Proof.
+  unfold apid_tbl. cbn. destruct (N.eqb E2 E) eqn:Ee.
+  - apply N.eqb_eq in Ee. subst. rewrite (lookup_set_same N.eqb Neqb_spec). reflexivity.
+  - apply N.eqb_neq in Ee. rewrite (lookup_set_other N.eqb Neqb_spec) by exact Ee. reflexivity.
+Qed.
+
+Lemma ctid_tbl_set st K t E2 A2 aps ecs :
+  ctid_tbl {| a_ecus := ecs; a_apids := aps; a_ctids := set_by pair_eqb K t (a_ctids st) |} E2 A2 =
+  if pair_eqb (E2, A2) K then t else ctid_tbl st E2 A2.
+Proof.
+  unfold ctid_tbl. cbn. destruct (pair_eqb (E2, A2) K) eqn:Ee.
+  - apply pair_eqb_spec in Ee. subst. rewrite (lookup_set_same pair_eqb pair_eqb_spec). reflexivity.
+  - assert ((E2, A2) <> K) by (intros Hc; apply pair_eqb_spec in Hc; congruence).
+    rewrite (lookup_set_other pair_eqb pair_eqb_spec) by assumption. reflexivity.
+Qed.
+
+Lemma apid_ctid_anon_spec st E x st2 x' :
+  apid_ctid_anon st E x = (st2, x') ->
+  e_vmm x' = e_vmm x /\ e_noar x' = e_noar x /\
+  apid_of st2 E (e_apid x) = Some (e_apid x') /\
+  ctid_of st2 E (e_apid x) (e_ctid x) = Some (e_ctid x') /\
+  st_le st st2 /\ (WFS st -> WFS st2) /\ a_ecus st2 = a_ecus st.
+Proof.
+  unfold apid_ctid_anon.
+  destruct (tbl_get letter_A (e_apid x) (apid_tbl st E)) as [at' apid'] eqn:Ea.
+  destruct (tbl_get letter_C (e_ctid x) (ctid_tbl st E (e_apid x))) as [ct' ctid'] eqn:Ec.
+  intros H; inversion H; subst; clear H. cbn [e_vmm e_noar e_apid e_ctid a_ecus].
+  destruct (tbl_get_spec _ _ _ _ _ Ea) as (A1 & [xa Hxa] & A3 & _ & _).
+  destruct (tbl_get_spec _ _ _ _ _ Ec) as (C1 & [xc Hxc] & C3 & _ & _).
+  split; [reflexivity|]. split; [reflexivity|].
+  split; [unfold apid_of; rewrite apid_tbl_set, N.eqb_refl; exact A1|].
+  split; [unfold ctid_of; rewrite ctid_tbl_set; rewrite (proj2 (pair_eqb_spec _ _) eq_refl); exact C1|].
+  split; [|split; [|reflexivity]].
+  - split; [auto|]. split.
+    + intros E2 A2 p Hp. unfold apid_of in *. rewrite apid_tbl_set. destruct (N.eqb E2 E) eqn:Ee; [|exact Hp].
+      apply N.eqb_eq in Ee. subst E2. rewrite Hxa. apply alookup_app_some. exact Hp.
+    + intros E2 A2 C2 p Hp. unfold ctid_of in *. rewrite ctid_tbl_set. destruct (pair_eqb (E2, A2) (E, e_apid x)) eqn:Ee; [|exact Hp].
+      apply pair_eqb_spec in Ee. inversion Ee; subst E2 A2. rewrite Hxc. apply alookup_app_some. exact Hp.
+  - intros W. pose proof (apid_tbl_WFT st E W) as Wa. pose proof (ctid_tbl_WFT st E (e_apid x) W) as Wc.
+    destruct W as (W1 & W2 & W3). split; [exact W1|]. split; cbn.
+    + apply set_by_Forall; auto.
+    + apply set_by_Forall; auto.
+Qed.
+
+Lemma renamed_by_mono st st' m o : st_le st st' -> renamed_by st m o -> renamed_by st' m o.
+Proof.
+  intros (L1 & L2 & L3) [R1 R2]. split; [auto|].
+  destruct (m_ext m) as [e|], (m_ext o) as [e'|]; auto.
+  destruct R2 as (V & N' & A & C). repeat split; auto.
+Qed.
+
+Theorem anon_step_renamed ck st m st' m' :
+  anon_step ck st m = Ok (st', m') ->
+  st_le st st' /\ renamed_by st' m m' /\ (WFS st -> WFS st') /\
+  (forall k, In k (map fst (a_ecus st')) <-> In k (map fst (a_ecus st)) \/ k = m_ecu m) /\
+  (NoDup (map fst (a_ecus st)) -> NoDup (map fst (a_ecus st'))).
+Proof.
+  unfold anon_step. destruct (ecu_anon st (m_ecu m)) as [st1 ecu'] eqn:Ee. cbv zeta. intros E.
+  apply bind_ok in E. destruct E as [p1 [_ E]]. apply bind_ok in E. destruct E as [p2 [_ E]].
+  inversion E; subst; clear E.
+  destruct (ecu_anon_spec _ _ _ _ Ee) as (H1 & H2 & H3 & H4 & H5 & H6 & H7).
+  destruct (m_ext m) as [e|] eqn:Ex.
+  - destruct (apid_ctid_anon st1 ecu' e) as [s e'] eqn:Ea. cbn [fst snd].
+    destruct (apid_ctid_anon_spec _ _ _ _ _ Ea) as (V & N' & A & C & L & W & K).
+    split; [eapply st_le_trans; eauto|]. split; [|split; [auto|rewrite K; auto]].
+    unfold renamed_by. cbn. rewrite Ex. split; [destruct L as (L1 & _); apply L1; exact H1|].
+    repeat split; auto.
+  - cbn [fst snd]. split; [exact H2|]. split; [|split; auto].
+    unfold renamed_by. cbn. rewrite Ex. split; [exact H1|exact I].
+Qed.
+
+Theorem anon_run_renamed ck ms : forall st st' outs,
+  anon_run ck st ms = Ok (st', outs) ->
+  st_le st st' /\ Forall2 (renamed_by st') ms outs /\ (WFS st -> WFS st') /\
+  (forall k, In k (map fst (a_ecus st')) <-> In k (map fst (a_ecus st)) \/ In k (map m_ecu ms)) /\
+  (NoDup (map fst (a_ecus st)) -> NoDup (map fst (a_ecus st'))).
+Proof.
+  induction ms as [|m rest IH]; intros st st' outs E; cbn [anon_run] in E.
+  - inversion E; subst. split; [apply st_le_refl|]. split; [constructor|]. split; [auto|]. split; [|auto].
+    intros k. cbn. intuition.
+  - apply bind_ok in E. destruct E as [[st1 m1] [E1 E]]. apply bind_ok in E. destruct E as [[st2 outs2] [E2 E]].
+    cbn [fst snd] in *. inversion E; subst; clear E.
+    destruct (anon_step_renamed _ _ _ _ _ E1) as (L1 & R1 & W1 & K1 & D1).
+    destruct (IH _ _ _ E2) as (L2 & R2 & W2 & K2 & D2).
+    split; [eapply st_le_trans; eauto|]. split; [|split; [auto|split; [|auto]]].
+    + constructor; [eapply renamed_by_mono; eauto|exact R2].
+    + intros k. rewrite K2, K1. cbn. intuition.
+Qed.
+
+Theorem anon_run_keeps ck ms : forall st st' outs,
+  anon_run ck st ms = Ok (st', outs) ->
+  Forall2 (fun m m' => m_index m' = m_index m /\ m_rtime m' = m_rtime m /\ m_ts m' = m_ts m /\
+                       m_htyp m' = m_htyp m /\ m_mcnt m' = m_mcnt m /\ m_len m' = m_len m /\
+                       m_lc m' = m_lc m /\ m_text m' = m_text m /\ ext_kind_kept (m_ext m) (m_ext m')) ms outs.
+Proof.
+  induction ms as [|m rest IH]; intros st st' outs E; cbn [anon_run] in E.
+  - inversion E; subst. constructor.
+  - apply bind_ok in E. destruct E as [[st1 m1] [E1 E]]. apply bind_ok in E. destruct E as [[st2 outs2] [E2 E]].
+    cbn [fst snd] in *. inversion E; subst; clear E.
+    constructor; [exact (anon_step_keeps _ _ _ _ _ E1)|eapply IH; eauto].
+Qed.
+
+(* ================================================================ 5. injectivity below the capacity *)
+Theorem anon_tables_injective ck ms st' outs :
+  anon_run ck anon_init ms = Ok (st', outs) ->
+  (blen (a_ecus st') <= capacity -> tbl_injective (a_ecus st')) /\
+  (forall E, blen (apid_tbl st' E) <= capacity -> tbl_injective (apid_tbl st' E)) /\
+  (forall E A, blen (ctid_tbl st' E A) <= capacity -> tbl_injective (ctid_tbl st' E A)).
+Proof.
+  intros E. destruct (anon_run_renamed _ _ _ _ _ E) as (_ & _ & W & _). specialize (W WFS_init).
+  split; [|split].
+  - destruct W as (W1 & _). apply (WFT_injective letter_E); [exact letter_E_ok|exact W1].
+  - intros E0. apply (WFT_injective letter_A); [exact letter_A_ok|apply apid_tbl_WFT; exact W].
+  - intros E0 A0. apply (WFT_injective letter_C); [exact letter_C_ok|apply ctid_tbl_WFT; exact W].
+Qed.
+
+Lemma Forall2_nth {A B} (R : A -> B -> Prop) l l' : Forall2 R l l' ->
+  forall i a b, nth_error l i = Some a -> nth_error l' i = Some b -> R a b.
+Proof.
+  induction 1 as [|x y l l' Hxy H IH]; intros [|i] a b Ha Hb; cbn in *; try discriminate.
+  - inversion Ha; inversion Hb; subst. exact Hxy.
+  - eapply IH; eauto.
+Qed.
+
+(* pairwise form: two messages of one stream *)
+Theorem anon_pairwise ck ms st' outs i j mi mj oi oj :
+  anon_run ck anon_init ms = Ok (st', outs) ->
+  nth_error ms i = Some mi -> nth_error ms j = Some mj -> nth_error outs i = Some oi -> nth_error outs j = Some oj ->
+  (* ECU ids *)
+  (m_ecu mi = m_ecu mj -> m_ecu oi = m_ecu oj) /\
+  (blen (a_ecus st') <= capacity -> m_ecu oi = m_ecu oj -> m_ecu mi = m_ecu mj) /\
+  (* APIDs of one ECU, CTIDs of one ECU/APID *)
+  forall ei ej ei' ej', m_ext mi = Some ei -> m_ext mj = Some ej -> m_ext oi = Some ei' -> m_ext oj = Some ej' ->
+    m_ecu mi = m_ecu mj ->
+    (e_apid ei = e_apid ej -> e_apid ei' = e_apid ej') /\
+    (blen (apid_tbl st' (m_ecu oi)) <= capacity -> e_apid ei' = e_apid ej' -> e_apid ei = e_apid ej) /\
+    (e_apid ei = e_apid ej ->
+       (e_ctid ei = e_ctid ej -> e_ctid ei' = e_ctid ej') /\
+       (blen (ctid_tbl st' (m_ecu oi) (e_apid ei)) <= capacity -> e_ctid ei' = e_ctid ej' -> e_ctid ei = e_ctid ej)).
+Proof.
+  intros E Hi Hj Hoi Hoj.
+  destruct (anon_run_renamed _ _ _ _ _ E) as (_ & R & _).
+  destruct (anon_tables_injective _ _ _ _ E) as (I1 & I2 & I3).
+  pose proof (Forall2_nth _ _ _ R i mi oi Hi Hoi) as [Ri1 Ri2].
+  pose proof (Forall2_nth _ _ _ R j mj oj Hj Hoj) as [Rj1 Rj2].
+  assert (Hecu : m_ecu mi = m_ecu mj -> m_ecu oi = m_ecu oj).
+  { intros Heq. rewrite Heq in Ri1. rewrite Ri1 in Rj1. inversion Rj1. reflexivity. }
+  split; [exact Hecu|]. split.
+  - intros Hc Heq. rewrite <- Heq in Rj1. exact (I1 Hc _ _ _ Ri1 Rj1).
+  - intros ei ej ei' ej' Xi Xj Xoi Xoj Hsame. rewrite Xi, Xoi in Ri2. rewrite Xj, Xoj in Rj2.
+    destruct Ri2 as (_ & _ & Ai & Ci). destruct Rj2 as (_ & _ & Aj & Cj).
+    rewrite <- (Hecu Hsame) in Aj, Cj. unfold apid_of in Ai, Aj. unfold ctid_of in Ci, Cj.
+    split; [|split].
+    + intros Heq. rewrite Heq in Ai. rewrite Ai in Aj. inversion Aj. reflexivity.
+    + intros Hc Heq. rewrite <- Heq in Aj. exact (I2 _ Hc _ _ _ Ai Aj).
+    + intros Ha. rewrite <- Ha in Cj. split.
+      * intros Heq. rewrite Heq in Ci. rewrite Ci in Cj. inversion Cj. reflexivity.
+      * intros Hc Heq. rewrite <- Heq in Cj. exact (I3 _ _ Hc _ _ _ Ci Cj).
+Qed.
